@@ -3,7 +3,10 @@ package checks
 import (
 	"encoding/json"
 	"fmt"
+	"math/rand"
 	"os"
+
+	"verif/internal/corpus"
 
 	"verif/internal/plugin"
 	"verif/internal/report"
@@ -55,4 +58,20 @@ func replayFile(tb *plugin.Toolbox, path string, seed int64) int {
 	c := &Ctx{TB: tb, R: r, Tier: rp.Tier, Seed: rp.Seed, Scratch: tb.Scratch, Only: rp.Case}
 	fn(c)
 	return r.Finish()
+}
+
+func init() {
+	Samples["tsfeatures"] = func() []*spec.File {
+		var files []*spec.File
+		feats := corpus.Features()
+		want := map[string]bool{"oneof_flatten/message/oneof_value": true, "oneof_nested/message/default-values": true, "flatten/prefix/child=word": true, "unwrap/map-value/message": true,
+			"unwrap/root-list/message": true, "nullable/int64/optional": true, "empty_null/message/singular": true, "ts_unix_millis/timestamp/singular": true, "none/oneof/plain": true, "none/messages/mixed": true, "int64_number/int64/repeated": true, "enum_number/enum/singular": true}
+		for i, f := range feats {
+			if want[f.ID] {
+				fp := corpus.BuildFeaturePkg(f, i, "ts", "", corpus.NewNames(rand.New(rand.NewSource(1))), true, []string{"top"})
+				files = append(files, fp.File)
+			}
+		}
+		return files
+	}
 }
